@@ -42,7 +42,8 @@ def parseSCall (l : Array String) : Option SCall :=
 def probeSem (base : Int) : Sem PF PF (List Int) Int (List Int) where
   applyF f x args :=
     let s : Int := f.code * base ^ (args.length + 1) +
-      (args.zipIdx.foldl (fun acc ai => acc + ai.1 * base ^ (ai.2 + 1)) 0)
+      (args.zipIdx.foldl (fun acc ai => acc + ai.1 * base ^ (ai.2 + 1)) 0) +
+      (if f.code ≥ 100 then (x.length : Int) else 0)
     -- `len = 1000 + 100 t + L`: L elements if the first argument is ≥ t, the natural length otherwise
     let L := match f.len with
       | some c => if c ≥ 1000 then
